@@ -56,6 +56,10 @@ mut("service-start-always-enqueues", "modules/service/keeper/invocation.go",
     "\tif !k.HasRequestBatchExpiration(ctx, requestContextID) &&\n\t\t!k.HasNewRequestBatch(ctx, requestContextID) {", "\tif true {")
 mut("service-next-batch-in-the-past", "modules/service/abci.go",
     "\t\t\t\t\tctx.BlockHeight()-requestContext.Timeout+int64(\n\t\t\t\t\t\trequestContext.RepeatedFrequency,\n\t\t\t\t\t),", "\t\t\t\t\tctx.BlockHeight()-requestContext.Timeout,")
+mut("service-callback-always-nil-error", "modules/service/keeper/invocation.go",
+    "\tif len(outputs) >= int(requestContext.BatchResponseThreshold) {\n\t\trespCallback(ctx, requestContextID, outputs, nil)", "\tif true {\n\t\trespCallback(ctx, requestContextID, outputs, nil)")
+mut("service-module-threshold-zero-allowed", "modules/service/keeper/invocation.go",
+    "\t\tif responseThreshold < 1 || int(responseThreshold) > len(providers) {", "\t\tif int(responseThreshold) > len(providers) {")
 # ---------------- harmless refactors: must stay quiet
 mut("harmless-farm-blocker-reads-height-once", "modules/farm/abci.go",
     "\tk.IteratorExpiredPool(ctx, ctx.BlockHeight(), func(pool types.FarmPool) {", "\theight := ctx.BlockHeight()\n\tk.IteratorExpiredPool(ctx, height, func(pool types.FarmPool) {", expect="quiet")
